@@ -37,9 +37,9 @@ THEOREMS_BY_PROPERTY = {
     "C04": ["TDV.PM.bookkeeping", "TDV.PM.delivered_prefix", "TDV.PM.delivered_prefix_total", "TDV.PM.complete",
             "TDV.PM.unordered_perm"],
     "C06": ["TDV.PM.state_tracks_consumer"],
-    "C11": ["TDV.PM.error_after_prefix", "TDV.PM.progress_partial", "TDV.PM.variant", "TDV.PM.next_after_end_prompt",
-            "TDV.PM.progress_statement_false_source_error", "TDV.PM.progress_statement_false_worker_death",
-            "TDV.PM.hang_after_source_error_forever", "TDV.PM.hang_after_worker_death_forever"],
+    "C11": ["TDV.PM.error_after_prefix", "TDV.PM.progress", "TDV.PM.variant", "TDV.PM.next_after_end_prompt",
+            "TDV.PM.early_stop_prompt", "TDV.PM.next_after_source_error_prompt", "TDV.PM.worker_death_detected",
+            "TDV.PM.early_stop_sound", "TDV.PM.runtime_error_sound"],
     "C12": ["TDV.PM.readahead_bound", "TDV.PM.readahead_bound_returned", "TDV.PM.release_never_overflows"],
     "C17": ["TDV.PM.released_reader", "TDV.PM.released_worker", "TDV.PM.released_sorter", "TDV.PM.stop_stays",
             "TDV.PM.Gen.released"],
@@ -54,8 +54,10 @@ RULE = ("cases are generated from one PRNG: num_workers 1-3, max_concurrent None
         "fired; distinct by (configuration, history, schedule).")
 EXPLANATION = ("Lean: TDV.PM is a small-step transition system of reader, N workers, sorter, consumer (one action per shared-object "
                "operation + timeout variants); one invariant `Inv` proved for every action sequence gives the bookkeeping, ordering, "
-               "completeness, read-ahead bound and checkpoint closed form; progress/variant give termination of next() outside the two "
-               "known hang states, for which decide-proved witnesses exist. Tie: every event trace of the real threads under the virtual "
+               "completeness, read-ahead bound and checkpoint closed form; progress (full strength since the repair of the two C11 hangs: "
+               "after the reader is gone with nothing in flight, or after a worker died, ONE timeout step of the consumer puts next() on "
+               "its return path) and variant give termination of next(); early_stop_sound / runtime_error_sound say the new exits cannot "
+               "lose items or cry wolf. Tie: every event trace of the real threads under the virtual "
                "scheduler is replayed by the model as an acceptor (payloads, semaphore values, timeouts, flags, popped versions, return "
                "values, get_state). Oracles: the same properties measured directly on the real threads under many schedules.")
 ASSUMPTIONS = [
@@ -64,6 +66,8 @@ ASSUMPTIONS = [
     "the source's state_dict after j items is truthy and determines position j; map_fn is deterministic (value, or raises)",
     "a timed wait only times out when the resource is unavailable at the deadline (CPython queue.Queue / Semaphore semantics)",
     "0 < max_concurrent and 1 <= num_workers for progress (max_concurrent=0 is accepted by the constructor and can never make progress)",
+    "a thread's is_alive() turns false exactly when its target function has returned (reader: after the terminal was put; "
+    "workers: never before a stop event is set, unless the process died)",
     "C06 closed form is stated for streams on which no error has been raised to the consumer",
 ]
 
@@ -208,7 +212,18 @@ class Instr:
         self.o_pop = SS.QueueSnapshotStore.pop_version
         self.o_empty = vsched.VQueue.empty
         self.o_pinit = vsched.VProcess.__init__
+        self.o_popq = M._populate_queue
         instr = self
+
+        def populate_queue(*a, **k):
+            # `_ParallelMapperIter.__next__` tests `self._read_thread.is_alive()`: the moment the reader's function
+            # returns is an observable of the protocol, so it is logged (from inside the reader thread)
+            try:
+                return instr.o_popq(*a, **k)
+            finally:
+                sc = vsched.CUR
+                if sc is not None and not sc.closed and sc.me() is not None:
+                    sc.ev("src", "exit", id(sc.me()))
 
         def pinit(proc, *a, **k):
             instr.o_pinit(proc, *a, **k)
@@ -249,6 +264,7 @@ class Instr:
         SS.QueueSnapshotStore.pop_version = pop_version
         vsched.VQueue.empty = empty
         vsched.VProcess.__init__ = pinit
+        M._populate_queue = populate_queue
         return self
 
     def capture(self, g: Gen, it):
@@ -281,6 +297,7 @@ class Instr:
         self.SS.QueueSnapshotStore.pop_version = self.o_pop
         vsched.VQueue.empty = self.o_empty
         vsched.VProcess.__init__ = self.o_pinit
+        self.M._populate_queue = self.o_popq
         return False
 
 
@@ -349,6 +366,9 @@ def translate(events: List[tuple], gens: List[Gen], in_order: bool):
             gi = by_vt.get(e[3])
             if gi is None:
                 bad.append("source driven by an unknown thread: %r" % (e,))
+                continue
+            if e[2] == "exit":
+                traces[gi].append(["r", "exit"])
                 continue
             if gi != cur_gen:
                 stale.add(gi)  # a reader of an old generation drives the source after a newer iterator was created
@@ -764,18 +784,9 @@ def run_kt(ctx: Ctx, n_quick: int = 700, n_thorough: int = 8000):
 # K-O: the properties measured directly on the real threads
 
 
-def is_hang_after_source_error(f: Failure) -> bool:
-    return f.kind == "C11:hang_after_source_error"
-
-
-def is_hang_after_worker_death(f: Failure) -> bool:
-    return f.kind == "C11:hang_after_worker_death"
-
-
-KNOWN = {
-    "pm-next-after-source-error-hangs": is_hang_after_source_error,
-    "pm-process-worker-death-hangs": is_hang_after_worker_death,
-}
+# Both C11 hangs of ParallelMapper were repaired in /repo (commits f3c1516, ac1bf0c): nothing is a known finding any more.
+# A hang that returns is a VIOLATION; the two regression witnesses live in corpus/C11/fixed-pm-*.json.
+KNOWN: Dict[str, Any] = {}
 
 
 def _classify_hang(ctx: Ctx, case, r: Run, oracle: str):
@@ -806,7 +817,8 @@ def check_stream(ctx: Ctx, case, r: Run, oracle: str):
     canon = [("i", o[1]) if o[0] == "i" else ("e", 0) if o[0] == "e" else ("s", 0) for o in obs]
     if case["in_order"] and not r.killed:
         # results must be the reference sequence, then StopIteration for ever
-        exp = list(ref) + [("s", 0)] * max(0, len(canon) - len(ref)) if case["term"] == "stop" else list(ref)
+        # … the reference sequence, then StopIteration for ever (also after a source error: the stream is over)
+        exp = list(ref) + [("s", 0)] * max(0, len(canon) - len(ref))
         if canon[:len(exp)] != exp[:len(canon)]:
             k = next((j for j, (a, b) in enumerate(zip(canon, exp)) if a != b), min(len(canon), len(exp)))
             ctx.fail("C04:stream_differs", inp, f"result {k} of successive next() calls is {canon[k:k + 2]}, reference {exp[k:k + 2]}")
@@ -814,22 +826,30 @@ def check_stream(ctx: Ctx, case, r: Run, oracle: str):
         items = sorted(o[1] for o in canon if o[0] == "i")
         ref_items = sorted(o[1] for o in ref if o[0] == "i")
         n_err = sum(1 for o in canon if o[0] == "e")
+        exp_err = len(case["fail"]) + (1 if case["term"] == "error" else 0)
         if ("s", 0) in canon:
             first_stop = canon.index(("s", 0))
             if any(o != ("s", 0) for o in canon[first_stop:]):
                 ctx.fail("C11:item_after_stop", inp, f"a result after StopIteration: {canon[first_stop:first_stop + 3]}")
-            if case["term"] != "stop":
-                ctx.fail("C11:stop_instead_of_error", inp, "StopIteration was raised although the source ended with an exception")
-            elif items != ref_items or n_err != len(case["fail"]):
-                ctx.fail("C04:multiset_differs", inp, f"at StopIteration delivered items {items}, errors {n_err}; reference {ref_items}, {len(case['fail'])}")
+            if case["term"] != "stop" and ("e", "src") not in r.obs[:len(obs)]:
+                ctx.fail("C11:stop_instead_of_error", inp, "StopIteration was raised although the source ended with an exception that was never raised")
+            elif items != ref_items or n_err != exp_err:
+                ctx.fail("C04:multiset_differs", inp, f"at StopIteration delivered items {items}, errors {n_err}; reference {ref_items}, {exp_err}")
         else:
             bad = [x for x in items if x not in ref_items] or len(items) != len(set(items))
             if bad:
                 ctx.fail("C04:multiset_differs", inp, f"delivered {items} is not a sub-multiset of the reference {ref_items}")
     # errors carry the right kind
     for o in r.obs:
-        if o[0] == "e" and o[1] not in ("src", "map"):
+        if o[0] == "e" and o[1] not in ("src", "map") and not (r.killed and o[1] == "RuntimeError"):
             ctx.fail("C11:unexpected_exception", inp, f"next() raised {o[1]}")
+    if r.killed and r.hang is None and ("s", 0) in canon and ("e", "RuntimeError") not in r.obs:
+        # a worker died: a clean end of stream is acceptable only if nothing was lost
+        items = sorted(o[1] for o in canon if o[0] == "i")
+        ref_items = sorted(o[1] for o in ref if o[0] == "i")
+        if items != ref_items:
+            ctx.fail("C11:stop_after_worker_death_without_error", inp,
+                     f"a worker process was killed, items {sorted(set(ref_items) - set(items))} were never delivered, and next() raised StopIteration without any error")
     if r.hang is not None:
         _classify_hang(ctx, case, r, oracle)
 
@@ -991,27 +1011,18 @@ def _ko_kill(ctx: Ctx, case):
 def witness_cases():
     """The two `decide`-proved stuck states of the model (TDV.PM.cfgA / cfgB), as cases for the real code."""
     a = {"N": 1, "mc": None, "f": 1, "in_order": True, "method": "thread", "items": [], "term": "error", "fail": [],
-         "hist": ["next", "next"], "sched": {"seed": 1, "adv": False, "starve": None}, "kill": None}
+         "hist": ["next", "next", "next"], "sched": {"seed": 1, "adv": False, "starve": None}, "kill": None}
     # worker 0's third switch point is the one inside map_fn: it dies holding item 0
     b = {"N": 1, "mc": None, "f": 0, "in_order": True, "method": "process", "items": [5], "term": "stop", "fail": [],
-         "hist": ["next", "next"], "sched": {"seed": 1, "adv": False, "starve": None}, "kill": {"worker": 0, "at": 3}}
+         "hist": ["next", "next", "next"], "sched": {"seed": 1, "adv": False, "starve": None}, "kill": {"worker": 0, "at": 3}}
     return a, b
 
 
 def replay_witnesses(ctx: Ctx):
+    """the two situations that used to hang (fixed in /repo): they must not hang, the usual oracles apply"""
     a, b = witness_cases()
-    ra = run_case(a, op_budget=30.0)
-    if ra.hang is not None and ("e", "src") in ra.obs:
-        _classify_hang(ctx, a, ra, "stream")
-    else:
-        ctx.note(f"model witness TDV.PM.hang_after_source_error_forever does not reproduce on the real code: {ra.obs}")
-    ctx.case("ko_pm_witness", a, True)
-    rb = run_case(b, op_budget=30.0)
-    if rb.hang is not None and rb.killed:
-        _classify_hang(ctx, b, rb, "kill")
-    else:
-        ctx.note(f"model witness TDV.PM.hang_after_worker_death_forever does not reproduce on the real code: {rb.obs} killed={rb.killed}")
-    ctx.case("ko_pm_witness", b, True)
+    _ko_stream(ctx, a)
+    _ko_kill(ctx, b)
 
 
 def run_ko(ctx: Ctx, scale: float = 1.0):
